@@ -954,17 +954,46 @@ def job_views(prog, job):
         idxs = [i for i in range(k) if P.implied(haves[i])]
         undec = [i for i in range(k) if i not in idxs and not P.implied(z3.Not(haves[i]))]
         segs = c.value.segs if isinstance(c.value, RString) else ()
-        hexbytes = [sg[2] for sg in segs if not isinstance(sg, str) and sg[0] == 'val' and isinstance(sg[2], Int) and sg[2].ty == 'u8']
-        lines = sum(sg.count('\n') for sg in segs if isinstance(sg, str))
+        # split the rendered text into lines; the first six characters of a line are the address (whatever the
+        # segmentation of the ICAO rendering: three {:02x} segments, one {:06x}, ...)
+        from checks.c04 import seg_hex_chars
+        lines_, cur = [], []
+        for sg in segs:
+            if isinstance(sg, str):
+                parts = sg.split('\n')
+                for pi, part in enumerate(parts):
+                    if part:
+                        cur.append(part)
+                    if pi < len(parts) - 1:
+                        lines_.append(cur)
+                        cur = []
+            else:
+                cur.append(sg)
+        if cur:
+            lines_.append(cur)
         P.obligations += 1
-        if undec or lines != len(idxs) or len(hexbytes) != 3 * len(idxs):
-            viol(res, 'C14', 'listing-lines', 'the listing has %d lines (%d address bytes), %d aircraft have details' % (lines, len(hexbytes), len(idxs)),
+        if undec or len(lines_) != len(idxs):
+            viol(res, 'C14', 'listing-lines', 'the listing has %d lines, %d aircraft have details' % (len(lines_), len(idxs)),
                  P.feasible(), {}, job)
             continue
         P.discharged += 1
         for j, i in enumerate(idxs):
+            head = []
+            for sg in lines_[j]:
+                cs = seg_hex_chars(sg)
+                if cs is None:
+                    break
+                head += cs
+                if len(head) >= 6:
+                    break
             kb = keys[i].f[0].e
-            ob(res, P, 'C14', 'listing-lines', z3.And(*[to_bv(hexbytes[3 * j + t]) == to_bv(kb[t]) for t in range(3)]),
+            exp = []
+            for b in kb:
+                for nib in (z3.LShR(to_bv(b), 4), to_bv(b) & 15):
+                    n32 = z3.ZeroExt(24, nib)
+                    exp.append(z3.If(z3.ULT(n32, 10), n32 + 48, n32 + 87))
+            claim = z3.And(*[g_ == e_ for g_, e_ in zip(head[:6], exp)]) if len(head) >= 6 else z3.BoolVal(False)
+            ob(res, P, 'C14', 'listing-lines', claim,
                'line %d of the listing is not headed by the address of the %d-th aircraft with details' % (j, j), None, job)
     res['obligations'] = P.obligations
     res['discharged'] = P.discharged
@@ -1017,25 +1046,32 @@ def job_prune(prog, job):
             post = c.cells[cid].f[0]
             # clock readings taken on this path, one per elapsed() call, in order
             nows = [coll_bi.clock_reading(i) for i in range(c.env.get('clock_n', 0))]
-            if len(nows) != k:
-                viol(res, 'C15', 'prune-clock-reads', 'prune read the clock %d times for %d records' % (len(nows), k), P.feasible(), {}, job)
+            if k and not nows:
+                viol(res, 'C15', 'prune-clock-reads', 'prune never read the clock for %d records' % k, P.feasible(), {}, job)
                 continue
             keep = []
             for i, s in enumerate(states):
                 lt = coll_bi.t_parts(fget(S, s, 'last_time'))
-                # heard less than T seconds ago: now >= stamp and (now - stamp) < (T s, 0 ns), i.e. whole seconds < T
-                alive = z3.And(coll_bi.t_le(lt, nows[i]), z3.ULT(coll_bi.t_sub(nows[i], lt)[0], T))
-                keep.append(alive)
+
+                def alive_at(now, lt=lt):
+                    # heard less than T seconds ago: now >= stamp and (now - stamp) < (T s, 0 ns), i.e. whole seconds < T
+                    return z3.And(coll_bi.t_le(lt, now), z3.ULT(coll_bi.t_sub(now, lt)[0], T))
+                if len(nows) == k:
+                    keep.append((alive_at(nows[i]), alive_at(nows[i])))          # one reading per record (elapsed())
+                else:
+                    # any other number of readings (e.g. one `now()` for the whole call): the age may be taken at any
+                    # reading of this call -- keeping needs "alive at some reading", removing "expired at some reading"
+                    keep.append((z3.Or(*[alive_at(n) for n in nows]), z3.And(*[alive_at(n) for n in nows])))
             # survivors on this path
             j = 0
             for i in range(k):
                 kept_here = j < len(post.ents) and post.ents[j][1] is states[i]
                 if kept_here:
-                    ob(res, P, 'C15', 'expiry-rule', keep[i], 'a record heard from T or more seconds ago (or with a clock error) survived', None, job)
+                    ob(res, P, 'C15', 'expiry-rule', keep[i][0], 'a record heard from T or more seconds ago (or with a clock error) survived', None, job)
                     ob(res, P, 'C15', 'survivor-untouched', value_eq(post.ents[j][0], keys[i]), 'a surviving record changed its address', None, job)
                     j += 1
                 else:
-                    ob(res, P, 'C15', 'expiry-rule', z3.Not(keep[i]), 'a record heard from less than T seconds ago was removed', None, job)
+                    ob(res, P, 'C15', 'expiry-rule', z3.Not(keep[i][1]), 'a record heard from less than T seconds ago was removed', None, job)
             P.obligations += 1
             if j != len(post.ents):
                 viol(res, 'C15', 'survivor-untouched', 'post map contains records that are not untouched pre-state records', P.feasible(), {}, job)
